@@ -124,7 +124,8 @@ WORDS = ["solo", "soloend", "soloing", "section", "lyric", "phrase_start", "phra
 TEXT_ALPHABET = ["a", "b", "Z", "1", " ", " ", "\"", "=", "[", "]", "{", "}", "\\", "\t", "\u00a0", "\u3000", "\u00e9", "e\u0301", "\u212b",
                  "\u00df", "\u4e16", "lyric", "section", "lyric ", "section ", "LYRIC ", "Section ", "-", "'", ",", ".", "E"]
 VALUE_ALPHABET = ["a", "b", "Q", "7", " ", "\"", "=", ",", "\t", "\u00e9", "\u4e16", "'", "-", ".", "(", ")", "\u00a0",
-                  "e\u0301", "\u2126", "\u212b", "\uf900", "\u304b\u3099", "\u1100\u1161", "\ufb01"]  # incl. text that is not NFC/NFKC-normalised
+                  "e\u0301", "\u2126", "\u212b", "\uf900", "\u304b\u3099", "\u1100\u1161", "\ufb01",  # incl. text that is not NFC/NFKC-normalised
+                  "/", "//", " // ", "#", ";", "\\", "%", "{", "}", "[", "]"]
 
 
 def gen_word(rng: random.Random) -> str:
